@@ -78,15 +78,14 @@ Proof.
   - destruct (load_json EDict g p) as [[] | |]; discriminate.
   - unfold load_pickle. destruct p; try discriminate.
     + destruct (nth_error g id); discriminate.
-    + destruct (nth_error g id); [| discriminate]. destruct (nth_error (n_mro n) i) as [m |]; [| discriminate].
-      destruct (m_is_exc m); discriminate.
+    + destruct (nth_error g id); [| discriminate]. destruct (nth_error (n_mro n) i); discriminate.
 Qed.
 
 (* ------------------------------------------------------------------ shape of what the JSON coder prepares *)
 Lemma first_ok_none : forall c l i, (forall m, In m l -> m_ok c m = false) -> first_ok c l i = None.
 Proof.
   intros c l. induction l as [| m t IH]; intros i H; cbn; [reflexivity |].
-  rewrite (H m (or_introl eq_refl)). apply IH. intros m' Hm'. apply H. right. exact Hm'.
+  rewrite (H m (or_introl eq_refl)), andb_false_r. apply IH. intros m' Hm'. apply H. right. exact Hm'.
 Qed.
 
 Lemma prep_seen : forall c g fuel seen id p,
@@ -413,11 +412,11 @@ Qed.
 (* ------------------------------------------------------------------ C19_class (pickle) *)
 Lemma first_ok_spec : forall c l k i,
   first_ok c l k = Some i ->
-  exists j m, i = k + j /\ nth_error l j = Some m /\ m_ok c m = true /\
-              (forall j' m', j' < j -> nth_error l j' = Some m' -> m_ok c m' = false).
+  exists j m, i = k + j /\ nth_error l j = Some m /\ m_is_exc m && m_ok c m = true /\
+              (forall j' m', j' < j -> nth_error l j' = Some m' -> m_is_exc m' && m_ok c m' = false).
 Proof.
   intros c l. induction l as [| m t IH]; intros k i H; cbn in H; [discriminate |].
-  destruct (m_ok c m) eqn:Hm.
+  destruct (m_is_exc m && m_ok c m) eqn:Hm.
   - inversion H; subst. exists 0, m. split; [lia |]. split; [reflexivity |]. split; [exact Hm |]. intros; lia.
   - apply IH in H. destruct H as [j [m0 [Hi [Hn [Hok Hlt]]]]].
     exists (S j), m0. split; [lia |]. split; [exact Hn |]. split; [exact Hok |].
@@ -425,10 +424,10 @@ Proof.
     eapply Hlt; [| exact Hn']. lia.
 Qed.
 
-Lemma first_ok_none_inv : forall c l k, first_ok c l k = None -> forall m, In m l -> m_ok c m = false.
+Lemma first_ok_none_inv : forall c l k, first_ok c l k = None -> forall m, In m l -> m_is_exc m && m_ok c m = false.
 Proof.
   intros c l. induction l as [| m t IH]; intros k H m' Hin; [contradiction |].
-  cbn in H. destruct (m_ok c m) eqn:Hm; [discriminate |].
+  cbn in H. destruct (m_is_exc m && m_ok c m) eqn:Hm; [discriminate |].
   destruct Hin as [E | Hin]; [subst; exact Hm | eapply IH; eauto].
 Qed.
 
@@ -445,12 +444,12 @@ Proof.
     repeat split; auto; intros; congruence.
   - destruct (first_ok CPickle (n_mro n) 0) as [i |] eqn:E2.
     + cbn in H. rewrite Hn in H. destruct (nth_error (n_mro n) i) as [m |] eqn:Hm; [| discriminate].
-      destruct (m_is_exc m) eqn:Hex; [| discriminate].
       inversion H. exists n, (if i =? 0 then KOrig else KBase i), (i =? 0), (m_loaded m).
       repeat split; auto; try (intros; congruence).
       intros _ i' Hi'. rewrite E2 in Hi'. inversion Hi'; subst i'.
       destruct (first_ok_spec _ _ _ _ E2) as [j [m0 [Hi [Hnj [Hok Hlt]]]]]. cbn in Hi. subst j.
-      rewrite Hm in Hnj. inversion Hnj; subst m0.
+      rewrite Hm in Hnj. inversion Hnj; subst m0. cbn [m_ok] in Hok, Hlt.
+      apply andb_true_iff in Hok. destruct Hok as [Hex Hok].
       exists m. repeat split; auto; try (intros; subst i; reflexivity).
       intros E. apply Nat.eqb_neq in E. rewrite E. reflexivity.
     + destruct (match n_cause n with None => Some PNone | Some j => prep_exc CPickle g (length g) [root] j end) as [wc |];
@@ -483,6 +482,7 @@ Proof.
     + intros [H _]. destruct (H eq_refl) as [Hk [Hn Ha]]. subst. auto.
   - destruct (first_ok CPickle (n_mro n) 0) as [i |] eqn:E2.
     + destruct (first_ok_spec _ _ _ _ E2) as [j [m [Hi [Hnj [Hok Hlt]]]]]. cbn in Hi. subst j. rewrite Hnj.
+      cbn [m_ok] in Hok, Hlt. apply andb_true_iff in Hok. destruct Hok as [Hex0 Hok].
       rewrite !andb_true_iff, largs_eqb_eq. split.
       * intros [[Hex Ha] Hk]. split; [intros; discriminate |]. split; [| intros; discriminate].
         intros _ i' Hi'. inversion Hi'; subst i'. exists m.
@@ -591,9 +591,9 @@ Proof.
 Qed.
 
 Theorem no_failure_pickle : forall g root,
-  wf g -> root < length g -> wrappable g -> mro_exceptions g -> exists t, roundtrip EPickle g root = OLoaded t.
+  wf g -> root < length g -> wrappable g -> exists t, roundtrip EPickle g root = OLoaded t.
 Proof.
-  intros g root Hwf Hr Hw Hmx.
+  intros g root Hwf Hr Hw.
   destruct (prepare_total CPickle g root Hwf Hr) as [p Hp].
   unfold roundtrip. cbn [coder_of]. rewrite Hp.
   unfold prepare in Hp. cbn [prep_exc mem existsb] in Hp.
@@ -604,8 +604,7 @@ Proof.
   - inversion Hp. cbn. rewrite Hn. eauto.
   - destruct (first_ok CPickle (n_mro n) 0) as [i |] eqn:E2.
     + inversion Hp. cbn. rewrite Hn.
-      destruct (first_ok_spec _ _ _ _ E2) as [j [m [Hi [Hnj [Hok _]]]]]. cbn in Hi. subst j. rewrite Hnj.
-      rewrite (Hmx n m Hin (nth_error_In _ _ Hnj) Hok). eauto.
+      destruct (first_ok_spec _ _ _ _ E2) as [j [m [Hi [Hnj [Hok _]]]]]. cbn in Hi. subst j. rewrite Hnj. eauto.
     + destruct (match n_cause n with None => Some PNone | Some j => prep_exc CPickle g (length g) [root] j end) as [wc |];
         [| discriminate].
       destruct (match (if n_suppress n then None else n_context n) with
@@ -629,4 +628,22 @@ Proof.
       * apply class_json_okb_iff. eapply class_json_thm; eauto. right; reflexivity.
     + destruct (class_pickle_thm _ _ _ Hrt) as [n [k [nm [a [Hn [Ht Hs]]]]]]. subst t.
       cbn. rewrite Hn. apply class_node_pickle_sound. exact Hs.
+Qed.
+
+(* ------------------------------------------------------------------ the class clause at the root, in one statement *)
+Theorem class_root_thm : forall e g root t,
+  is_json e -> json_opaque g -> roundtrip e g root = OLoaded t ->
+  exists n k nm a c x s, nth_error g root = Some n /\ t = LNode root k nm a c x s /\ class_spec_json e n k nm a /\
+    (faithful e n = true -> all_eq e n = true -> k = KOrig /\ a = LArgs (map (fun _ => AEq) (n_args n))).
+Proof.
+  intros e g root t He Hop H.
+  pose proof (chain_thm _ _ _ _ He Hop H) as Hch.
+  pose proof (class_json_thm _ _ _ _ He Hop H) as Hcl.
+  destruct t as [| i k nm a c x s]; [cbn in Hch; contradiction |].
+  pose proof (proj1 (chain_ok_unfold _ _ _ _ _ _ _ _ _ _) Hch) as Hu. destruct Hu as [E [n [Hn _]]]. subst i.
+  cbn [class_json_ok] in Hcl. destruct Hcl as [[n' [Hn' Hs]] _].
+  rewrite Hn in Hn'. inversion Hn'; subst n'.
+  exists n, k, nm, a, c, x, s. split; [exact Hn |]. split; [reflexivity |]. split; [exact Hs |].
+  intros Hfa Hall. destruct Hs as [Hf _]. destruct (Hf Hfa) as [Hk Ha]. split; [exact Hk |].
+  rewrite Ha, (all_eq_forms _ _ Hall). reflexivity.
 Qed.
